@@ -747,8 +747,56 @@ pub fn replay_vpair(text: &str, coll: &Collector) {
     }
 }
 
+/// per-value clauses of C12 on one input: == &str iff canonical text, clone ==/hash/cmp, and
+/// agreement of ==/hash/cmp with the value parsed from the canonical string (parse route)
+pub fn check_c12_input(b: &[u8], l: &mut Local, coll: &Collector) {
+    let v = |l: &Local, sub: &'static str, class: &str, e: String, o: String| {
+        coll.push(l.order, Violation { sub, class: class.to_string(), case: Case::Input(b.to_vec()), expected: e, observed: o });
+    };
+    if let Out::Ok(li) = inputs::parse_langid(b) {
+        l.nontrivial += 1;
+        let s = li.to_string();
+        if !(li == s.as_str()) {
+            v(l, "c12.eq_str", "LanguageIdentifier != its own canonical text", format!("true for {}", s), "false".into());
+        }
+        for other in [s.to_ascii_uppercase(), format!("{}-", s), format!("{}-x", s), s[..s.len() - 1].to_string(), s.replace('-', "_")] {
+            if other != s && li == other.as_str() {
+                v(l, "c12.eq_str", "LanguageIdentifier == a text that is not its canonical text", "false".into(), format!("true for {:?}", other));
+            }
+        }
+        if let Out::Ok(again) = inputs::parse_langid(s.as_bytes()) {
+            if again != li || hash_of(&again) != hash_of(&li) || again.cmp(&li) != Ord3::Equal {
+                v(l, "c12.route", "the value parsed from an input and the value parsed from its canonical string differ in ==/hash/cmp", format!("{:?}", li), format!("{:?}", again));
+            }
+        }
+        if l.wants(0) {
+            l.sample(0, b, || format!("== {:?}", s));
+        }
+    }
+    if let Out::Ok(loc) = inputs::parse_locale(b) {
+        l.counters[0] += 1;
+        let s = loc.to_string();
+        let c = loc.clone();
+        if c != loc || hash_of(&c) != hash_of(&loc) || c.cmp(&loc) != Ord3::Equal {
+            v(l, "c12.reflexive", "a clone is not ==/hash-equal/Ordering::Equal", "equal".into(), "different".into());
+        }
+        if let Out::Ok(again) = inputs::parse_locale(s.as_bytes()) {
+            if again != loc || hash_of(&again) != hash_of(&loc) || again.cmp(&loc) != Ord3::Equal {
+                v(l, "c12.route", "the value parsed from an input and the value parsed from its canonical string differ in ==/hash/cmp", format!("{:?}", loc), format!("{:?}", again));
+            }
+        }
+    }
+}
+
 pub fn run_c12(ctx: &Ctx) -> Report {
     let mut rep = Report::new();
+    // per-value clauses on every accepted input of the standard input spaces (including the
+    // long skeletons and the dictionary)
+    {
+        let plan = SweepPlan::standard(ctx);
+        let all = sweep(ctx, &plan, &mut rep, &check_c12_input);
+        rep.extra.insert("accepted_locale_inputs".into(), json!(all.counters[0]));
+    }
     // route 1: mutation histories (also fills the route-independence table: c12.route)
     let sum = run_harnesses(ctx, history::std_set(ctx), &["c12."], &mut rep, true);
     fill_report(&mut rep, &sum, "C12: route independence (the same model value reached with two representations is a violation) and per-state ==/hash/cmp/&str checks");
